@@ -3,9 +3,9 @@ From Coq Require Import ExtrOcamlBasic.
 From NV Require Import Base.Witness Index.Bins Index.Chunks Index.Indexer Index.QueryFast Index.AlignEnd
   Index.Formats Index.FormatsFast Vcf.Values Vcf.Span Index.FormatsVcf
   Bgzf.Vpos Bgzf.ReaderOps Index.ByteQuery Index.ByteIndex Index.ByteIndexLazy Index.ByteUnmapped
-  Index.BcfByteQuery.
+  Index.BcfByteQuery Index.BcfSiteKey.
 Extraction "model.ml" nv_types_witness build_ref query_fast query_records scan_records mkrec
   bins lin loffs Linear Binned alignment_end
   mkbam bam_index bam_index_scan bam_query_fast bam_query_unmapped bam_chunk_read
   mkvcf vcf_index vcf_index_scan vcf_query_fast tabix_index tabix_index_scan tabix_query
-  mkFrame byte_session_x byte_bam_session_x byte_bam_ops_session_x bcf_byte_session_x.
+  mkFrame byte_session_x byte_bam_session_x byte_bam_ops_session_x bcf_byte_session_x bcf_site_key.
